@@ -129,3 +129,12 @@ pub fn vx_starts_with_mqtt(src: &Bytes) -> (r: bool)
     requires src@.len() >= 4,
     ensures r == (src@[0] == 0x4Du8 && src@[1] == 0x51u8 && src@[2] == 0x54u8 && src@[3] == 0x54u8),
 { unimplemented!() }
+/// ByteString equality is byte equality (ntex_bytes: PartialEq via the underlying bytes)
+impl PartialEq for ByteString {
+    #[verifier::external_body]
+    fn eq(&self, other: &Self) -> (r: bool) { unimplemented!() }
+}
+impl vstd::std_specs::cmp::PartialEqSpecImpl for ByteString {
+    open spec fn obeys_eq_spec() -> bool { true }
+    open spec fn eq_spec(&self, other: &Self) -> bool { self@ == other@ }
+}
